@@ -60,6 +60,8 @@ def units(tier, seed):
         u.append({'k': 'xdev', 'i': i})
     for i in range(36 if tier == 'quick' else 360):
         u.append({'k': 'pairs', 'i': i})
+    for i in range(4 if tier == 'quick' else 16):
+        u.append({'k': 'sameino', 'i': i})
     return u
 
 
@@ -163,6 +165,15 @@ def write_manifest(root, files, ignores, extra=()):
 
 
 def run_walker(root, walker, wseed, allow_xdev=True):
+    """@walker may carry the suffix '-rel': the loader is then given the relative
+    path ./Manifest from inside the tree (what `cd TREE && gemato verify` does)."""
+    if walker.endswith('-rel'):
+        old = os.getcwd()
+        os.chdir(root)
+        try:
+            return run_walker('.', walker[:-4], wseed, allow_xdev)
+        finally:
+            os.chdir(old)
     from gemato.recursiveloader import ManifestRecursiveLoader
     perm = walkperm.WalkPermuter(wseed, budget=BUDGET)
     kw = {}
@@ -199,7 +210,10 @@ def run_walker(root, walker, wseed, allow_xdev=True):
 def judge_loop(ctx, root, case, ignores):
     loop, files, ndirs = explore(root, set(ignores))
     nontrivial = bool(case['links'])
-    for walker in WALKERS:
+    walkers = list(WALKERS)
+    if case.get('rel'):
+        walkers += [w + '-rel' for w in WALKERS]
+    for walker in walkers:
         ctx.case(sig=('loop', tuple(case['shape']), len(case['links']), loop,
                       case['ignore'] is not None and case['ignore'][0], walker),
                  case=dict(case, walker=walker), nontrivial=nontrivial,
@@ -274,7 +288,7 @@ def run_enum(u, ctx):
                 case = {'kind': 'loop', 'shape': shape,
                         'links': [list(x) for x in links],
                         'ignore': list(ign) if ign else None,
-                        'prefix_names': k % 2 == 1,
+                        'prefix_names': k % 2 == 1, 'rel': k % 5 == 0,
                         'wseed': (k * 7919 + ctx.seed) % (1 << 30)}
                 exec_loop_case(ctx, case)
                 k += 1
@@ -292,7 +306,8 @@ def run_rand(u, ctx):
     ign = rng.choice([None, ['link', rng.randrange(len(links))],
                       ['above', rng.randrange(len(links))]])
     case = {'kind': 'loop', 'shape': shape, 'links': links, 'ignore': ign,
-            'prefix_names': rng.random() < 0.5, 'wseed': rng.randrange(1 << 30)}
+            'prefix_names': rng.random() < 0.5, 'rel': rng.random() < 0.5,
+            'wseed': rng.randrange(1 << 30)}
     exec_loop_case(ctx, case)
     ctx.sample(case, 'rand')
 
@@ -455,6 +470,99 @@ def run_pairs(u, ctx):
     ctx.sample(case, 'pairs')
 
 
+def run_sameino(u, ctx):
+    """Two fresh tmpfs instances in a private mount namespace, filled in the same
+    order, so that directories on the second one carry the inode numbers of the
+    link's own ancestors on the first: a link to such a directory is no loop (the
+    device differs) and must be followed."""
+    import json
+    import subprocess
+    with common.Scratch('vf-c16m-') as scratch:
+        out = os.path.join(scratch, 'out.json')
+        cmd = ['unshare', '-m', common.PY, '-m', 'vf.checks.c16', '--sameino-child',
+               scratch, out, str(ctx.seed), str(u['i'])]
+        try:
+            r = subprocess.run(cmd, env=dict(os.environ), capture_output=True,
+                               timeout=300, cwd=common.VERIF_DIR)
+        except subprocess.TimeoutExpired:
+            ctx.notes['sameino_timeout'] += 1
+            return
+        if r.returncode != 0 or not os.path.exists(out):
+            ctx.notes['sameino_mount_unavailable'] += 1
+            return
+        with open(out) as f:
+            res = json.load(f)
+    ctx.counters.update(res['counters'])
+    ctx.case_hashes.update(res['case_hashes'])
+    ctx.signatures.update(res['signatures'])
+    ctx.violations.extend(res['violations'])
+    for k, v in res.get('notes', {}).items():
+        ctx.notes[k] += v
+
+
+def sameino_child(argv):
+    import json
+    import subprocess
+    import sys
+    from vf import harness
+    scratch, out, seed, idx = argv[0], argv[1], int(argv[2]), int(argv[3])
+    ctx = harness.Ctx(ID, 'quick', seed)
+    setup_worker(ctx)
+    subprocess.run(['mount', '--make-rprivate', '/'], check=False)
+    ma, mb = os.path.join(scratch, 'A'), os.path.join(scratch, 'B')
+    mounted = []
+    try:
+        for m in (ma, mb):
+            os.makedirs(m)
+            if subprocess.run(['mount', '-t', 'tmpfs', 'none', m],
+                              capture_output=True).returncode != 0:
+                sys.exit(7)
+            mounted.append(m)
+        # the same sequence of creations on both: equal inode numbers
+        for base in (ma, mb):
+            os.makedirs(os.path.join(base, 'd1', 'd2', 'd3'))
+            with open(os.path.join(base, 'd1', 'd2', 'd3', 'f'), 'w') as f:
+                f.write('f')
+        pairs = [(r, os.stat(os.path.join(ma, r) if r else ma).st_ino,
+                  os.stat(os.path.join(mb, r) if r else mb).st_ino)
+                 for r in ('', 'd1', 'd1/d2', 'd1/d2/d3')]
+        same = [r for r, a, b in pairs if a == b]
+        if not same:
+            ctx.notes['sameino_no_equal_inodes'] += 1
+        else:
+            root = ma
+            # a link deep in tree A to the directory of B whose inode number equals
+            # that of an ancestor of the link in A
+            tgt_rel = same[idx % len(same)]
+            lp = 'd1/d2/d3/cross'
+            os.symlink(os.path.join(mb, tgt_rel) if tgt_rel else mb,
+                       os.path.join(root, lp))
+            loop, files, nd = explore(root, set())
+            write_manifest(root, files, [])
+            case = {'kind': 'sameino', 'i': idx, 'target': tgt_rel}
+            for walker in WALKERS + ['update-inc']:
+                c2 = dict(case, walker=walker)
+                ctx.case(sig=('sameino', tgt_rel, walker), case=c2, klass='sameino')
+                ctx.count('sameino_cases')
+                (kind, val), yields = run_walker(root, walker, idx * 13 + 1)
+                if kind == 'exc':
+                    ctx.violation('bogus-loop-error:' + walker, '%s raised %r for a link '
+                                  'to a directory on ANOTHER file system that merely has '
+                                  'the inode number of an ancestor' % (walker, val), c2)
+                elif walker == 'verify':
+                    r, calls = val
+                    if calls or r is not True:
+                        ctx.violation('linked-files-not-ordinary', 'verification '
+                                      'reported %r' % (calls[:4],), c2)
+    finally:
+        os.chdir('/')
+        for m in reversed(mounted):
+            subprocess.run(['umount', '-l', m], capture_output=True)
+    with open(out, 'w') as f:
+        json.dump(ctx.dump(), f, default=repr)
+    sys.exit(0)
+
+
 def run_xdev(u, ctx):
     rng = common.rng_for(ctx.seed, ID, 'xdev', u['i'])
     n = rng.randint(1, 3)
@@ -470,7 +578,7 @@ def run_xdev(u, ctx):
 
 def run_unit(u, ctx):
     {'enum': run_enum, 'rand': run_rand, 'xdev': run_xdev,
-     'pairs': run_pairs}[u['k']](u, ctx)
+     'pairs': run_pairs, 'sameino': run_sameino}[u['k']](u, ctx)
 
 
 def replay(case, ctx):
@@ -479,5 +587,13 @@ def replay(case, ctx):
         exec_loop_case(ctx, case)
     elif case['kind'] == 'pairs':
         exec_pairs(ctx, case)
+    elif case['kind'] == 'sameino':
+        run_sameino({'i': case['i']}, ctx)
     else:
         exec_xdev(ctx, case)
+
+
+if __name__ == '__main__':
+    import sys
+    if len(sys.argv) > 1 and sys.argv[1] == '--sameino-child':
+        sameino_child(sys.argv[2:])
